@@ -407,6 +407,12 @@ def c10_groups(r: random.Random, n_groups: int):
         ("field", "rename", 'rename = "gx"', 'rename = "gy"', E_BASE, "F"),
         ("field", "skip", "skip", None, E_BASE, "F"),
     ]
+    # the only field of a newtype variant / a field of a tuple variant / the only field of a newtype struct
+    E_NEWTYPE = "{C}enum E {{ {V}First {{ x_val: i32 }}, Second({F}String), Third, }}"
+    E_TUPLE = "{C}enum E {{ {V}First {{ x_val: i32 }}, Second({F}String, i32), Third, }}"
+    for tmpl_nt in (E_NEWTYPE, E_TUPLE, '#[ts(tag = "t", content = "c")] ' + E_NEWTYPE, "#[ts(untagged)] " + E_NEWTYPE,
+                    "{C}struct S({F}String);", "{C}struct S({F}String, i32);"):
+        catalog.append(("field", "skip", "skip", None, tmpl_nt, "F"))
     flatten_base = "struct S {{ {F}inner: Inner, own: i32, }}"
     catalog.append(("field", "flatten", "flatten", None, flatten_base, "F"))
     # adjacently tagged: two keys
